@@ -69,16 +69,23 @@ var rootDirRe = regexp.MustCompile(`(?m)^//verif:root\s+(.*)$`)
 func harnessFilesFor(id string) (dirs []string, extraRoots []string) {
 	base := filepath.Join(verifDir, "harness")
 	seen := map[string]bool{}
+	var commons [][2]string
 	filepath.Walk(base, func(path string, info os.FileInfo, err error) error {
 		if err != nil || info.IsDir() {
 			return nil
 		}
 		name := info.Name()
-		if strings.HasPrefix(name, "zz_verif_"+id) && strings.HasSuffix(name, ".go") {
+		isID := strings.HasPrefix(name, "zz_verif_"+id) && strings.HasSuffix(name, ".go")
+		isCommon := strings.HasPrefix(name, "zz_verif_common") && strings.HasSuffix(name, ".go")
+		if isID || isCommon {
 			rel, _ := filepath.Rel(base, filepath.Dir(path))
-			if !seen[rel] {
+			if isID && !seen[rel] {
 				seen[rel] = true
 				dirs = append(dirs, rel)
+			}
+			if isCommon {
+				commons = append(commons, [2]string{rel, path})
+				return nil
 			}
 			data, _ := os.ReadFile(path)
 			for _, m := range rootDirRe.FindAllStringSubmatch(string(data), -1) {
@@ -89,6 +96,16 @@ func harnessFilesFor(id string) (dirs []string, extraRoots []string) {
 		}
 		return nil
 	})
+	// root directives of shared files count for the directories of this property
+	for _, c := range commons {
+		if !seen[c[0]] {
+			continue
+		}
+		data, _ := os.ReadFile(c[1])
+		for _, m := range rootDirRe.FindAllStringSubmatch(string(data), -1) {
+			extraRoots = append(extraRoots, strings.Fields(m[1])...)
+		}
+	}
 	return
 }
 
@@ -431,6 +448,9 @@ func judgeNative(r nativeResult, ok bool, txt, label, kind string) string {
 				return "reproduced (native run hung)"
 			}
 			return "not-reproduced: native run timed out"
+		}
+		if i := strings.Index(txt, "\npanic: "); i >= 0 && kind == "panic" && !strings.Contains(txt, "panic: test timed out") {
+			return "reproduced (native process crashed): " + firstLine(txt[i+1:])
 		}
 		if i := strings.Index(txt, "fatal error:"); i >= 0 {
 			if kind == "panic" || kind == "deadlock" {
